@@ -1010,9 +1010,12 @@ def diff(a, *args, **kwargs):
 
 @implements(np.ediff1d)
 def ediff1d(ary, *args, **kwargs):
+    if hasattr(ary, "units"):
+        # values glued to the differences are expressed in their units:
+        # np.ediff1d(ary, to_end, to_begin)
+        args = tuple(_values_in(ary.units, arg) for arg in args)
     for key in ("to_end", "to_begin"):
         if key in kwargs and hasattr(ary, "units"):
-            # values glued to the differences are expressed in their units
             kwargs[key] = _values_in(ary.units, kwargs[key])
     return diff_helper(np.ediff1d, ary, *args, **kwargs)
 
